@@ -2,7 +2,7 @@
    to each (run), the executable mathematical specification (spec) and the input domain (wf).
    `bits` is a tag (the width the slices would come from); the kernels do not depend on it. *)
 From RV.Model Require Import Base Word.
-From RV.Model Require DivRecip DivSmall DivKnuth Div.
+From RV.Model Require DivRecip DivSmall DivKnuth Div DivRef.
 
 Inductive call : Type :=
 | div (bits : Z) (n d : list Z)
@@ -15,7 +15,11 @@ Inductive call : Type :=
 | div_2x1 (bits : Z) (u d v : Z)                       (* u : u128 *)
 | div_3x2 (bits : Z) (u21 u0 d v : Z)                  (* u21, d : u128 *)
 | reciprocal (bits : Z) (d : Z)
-| reciprocal_2 (bits : Z) (d : Z).                     (* d : u128 *)
+| reciprocal_2 (bits : Z) (d : Z)                      (* d : u128 *)
+(* the reference kernels (machine `/` and `%` on u128 instead of a reciprocal) *)
+| div_2x1_ref (bits : Z) (u d : Z)                     (* u : u128 *)
+| div_3x2_ref (bits : Z) (n21 n0 d : Z)                (* n21, d : u128 *)
+| reciprocal_ref (bits : Z) (d : Z).
 
 Definition toks_ll (p : list Z * list Z) : list tok := [TL (fst p); TL (snd p)].
 Definition toks_lz (p : list Z * Z) : list tok := [TL (fst p); TZ (snd p)].
@@ -34,6 +38,9 @@ Definition run (c : call) : result :=
   | div_3x2 _ u21 u0 d v => omap toks_zz (DivSmall.div_3x2_mg10 u21 u0 d v)
   | reciprocal _ d => omap (fun v => [TZ v]) (DivRecip.reciprocal_mg10 d)
   | reciprocal_2 _ d => omap (fun v => [TZ v]) (DivRecip.reciprocal_2_mg10 d)
+  | div_2x1_ref _ u d => omap toks_zz (DivRef.div_2x1_ref u d)
+  | div_3x2_ref _ n21 n0 d => omap (fun q => [TZ q]) (DivRef.div_3x2_ref n21 n0 d)
+  | reciprocal_ref _ d => omap (fun v => [TZ v]) (DivRef.reciprocal_ref d)
   end.
 
 (* ---- documented preconditions (doc comments / debug_asserts of each function) ---- *)
@@ -64,6 +71,9 @@ Definition wf (c : call) : Prop :=
   | div_3x2 bits u21 u0 d v => 0 <= bits /\ in128 u21 /\ inW u0 /\ in128 d /\ inW v
   | reciprocal bits d => 0 <= bits /\ inW d
   | reciprocal_2 bits d => 0 <= bits /\ in128 d
+  | div_2x1_ref bits u d => 0 <= bits /\ in128 u /\ inW d
+  | div_3x2_ref bits n21 n0 d => 0 <= bits /\ in128 n21 /\ inW n0 /\ in128 d
+  | reciprocal_ref bits d => 0 <= bits /\ inW d
   end.
 Definition wfb (c : call) : bool :=
   match c with
@@ -75,6 +85,9 @@ Definition wfb (c : call) : bool :=
   | div_3x2 bits u21 u0 d v => (0 <=? bits) && in128b u21 && inWb u0 && in128b d && inWb v
   | reciprocal bits d => (0 <=? bits) && inWb d
   | reciprocal_2 bits d => (0 <=? bits) && in128b d
+  | div_2x1_ref bits u d => (0 <=? bits) && in128b u && inWb d
+  | div_3x2_ref bits n21 n0 d => (0 <=? bits) && in128b n21 && inWb n0 && in128b d
+  | reciprocal_ref bits d => (0 <=? bits) && inWb d
   end.
 
 (* ---- specification: integer quotient and remainder of the denoted values ---- *)
@@ -112,4 +125,9 @@ Definition spec (c : call) (o : result) : bool :=
         [TZ ((u21 * B + u0) / d); TZ ((u21 * B + u0) mod d)]
   | reciprocal _ d => under (2 ^ 63 <=? d) o [TZ ((BB - 1) / d - B)]
   | reciprocal_2 _ d => under (2 ^ 127 <=? d) o [TZ ((BBB - 1) / d - B)]
+  | div_2x1_ref _ u d =>
+      under ((2 ^ 63 <=? d) && (u / B <? d)) o [TZ (u / d); TZ (u mod d)]
+  | div_3x2_ref _ n21 n0 d =>
+      under ((2 ^ 127 <=? d) && (n21 <? d)) o [TZ ((n21 * B + n0) / d)]
+  | reciprocal_ref _ d => under (2 ^ 63 <=? d) o [TZ ((BB - 1) / d - B)]
   end.
